@@ -1,6 +1,10 @@
 """Per-property configuration of ./check (which build configurations run, floors, layers)."""
 
 PROPS = {
+    "C15": dict(custom="c15", floor=1000, layers=["tsan-c15", "miri-c15"]),
+    "C16": dict(custom="c16", floor=100, exhaustive_thorough=False),
+    "C18": dict(configs=["ring", "aws"], floor=100, needs_cli=True),
+    "C10": dict(configs=["ring", "aws"], configs_thorough=["ring", "aws", "ring-release"], floor=20000, abort_is_violation=True),
     "C06": dict(configs=["ring", "aws"], floor=5000),
     "C11": dict(configs=["ring", "aws"], floor=500),
     "C14": dict(configs=["ring", "aws"], floor=500),
